@@ -13,20 +13,23 @@
      NoPhantom        nothing is reported for a series that was never offered
      NoDupInFlush     no series is reported twice within one flush
      ExactlyOneFlush  every reported datapoint was offered and not reported before; at quiescence none is left
-     SameAggregator   a series is always reported by the same reporter (C06) *)
+     SameAggregator   a series is always reported by the same reporter (C06)
+     OncePerFlush     every reporter (aggregator shard) reports once per flush: none reports a second time while another has not yet
+                      reported for the flush before (active when the number of reporters is known, nrep > 0) *)
 EXTENDS Naturals, FiniteSets, Sequences
 
-VARIABLES inflight, done, known, seen, owner, bad
-pvars == <<inflight, done, known, seen, owner, bad>>
+VARIABLES inflight, done, known, seen, owner, bad, cnt, nrep
+pvars == <<inflight, done, known, seen, owner, bad, cnt, nrep>>
 
-PInit == inflight = {} /\ done = {} /\ known = {} /\ seen = <<>> /\ owner = <<>> /\ bad = ""
+PInit == inflight = {} /\ done = {} /\ known = {} /\ seen = <<>> /\ owner = <<>> /\ bad = "" /\ cnt = <<>> /\ nrep = 0
+Cnt(w) == IF w \in DOMAIN cnt THEN cnt[w] ELSE 0
 Latch(v) == bad' = IF bad # "" THEN bad ELSE v
 
 \* ks: series offered with data the conservation clause does not speak of (gauges): they become known, nothing is in flight
 POffer(pts, ks) ==
   /\ inflight' = inflight \cup {p.id : p \in pts}
   /\ known' = known \cup {p.k : p \in pts} \cup ks
-  /\ UNCHANGED <<done, seen, owner, bad>>
+  /\ UNCHANGED <<done, seen, owner, bad, cnt, nrep>>
 
 PReport(flush, who, series, news) ==
   LET already == IF flush \in DOMAIN seen THEN seen[flush] ELSE {}
@@ -35,16 +38,18 @@ PReport(flush, who, series, news) ==
                  ELSE IF news \cap done # {} THEN "ExactlyOneFlush(reported twice)"
                  ELSE IF ~(news \subseteq inflight) THEN "ExactlyOneFlush(never offered)"
                  ELSE IF \E k \in series : k \in DOMAIN owner /\ owner[k] # who THEN "SameAggregator"
+                 ELSE IF nrep > 0 /\ \E w \in 0..(nrep - 1) : w # who /\ Cnt(w) + 1 < Cnt(who) + 1 THEN "OncePerFlush(a shard reported twice within one flush)"
                  ELSE ""
   IN /\ Latch(verdict)
      /\ inflight' = inflight \ news
      /\ done' = done \cup news
      /\ seen' = [f \in DOMAIN seen \cup {flush} |-> IF f = flush THEN already \cup series ELSE seen[f]]
      /\ owner' = [k \in DOMAIN owner \cup series |-> IF k \in DOMAIN owner THEN owner[k] ELSE who]
-     /\ UNCHANGED known
+     /\ cnt' = [w \in DOMAIN cnt \cup {who} |-> IF w = who THEN Cnt(who) + 1 ELSE cnt[w]]
+     /\ UNCHANGED <<known, nrep>>
 
 PQuiesce == /\ Latch(IF inflight # {} THEN "ExactlyOneFlush(lost)" ELSE "")
-            /\ UNCHANGED <<inflight, done, known, seen, owner>>
+            /\ UNCHANGED <<inflight, done, known, seen, owner, cnt, nrep>>
 
 PropertyHolds == bad = ""
 =============================================================================
